@@ -32,12 +32,14 @@ PROPS = {
     },
     "C03": {
         "corr_filters": ["::pdf", "::pmf", "::cdf"],
+        "also_props": ["C10/StudentsT", "C10/Delegation"],
         "not_covered": [DIST_NOTE, SF_NOTE, "C03 derivative/integral theorems for families whose cdf is an incomplete gamma/beta/erf (search only)",
                         "finiteness / overflow of closed-form densities (Float-only)"],
         "assumptions": ["Real-number semantics for theorems; IEEE semantics only through the bit-level correspondence and the Float counterexample theorems"],
     },
     "C04": {
         "corr_filters": ["::ln_pdf", "::ln_pmf", "::pdf", "::pmf"],
+        "also_props": ["C10/StudentsT", "C10/Delegation"],
         "not_covered": [DIST_NOTE, "underflow regions ('may be finite but not +inf/NaN')", "multivariate log-densities (see C19)"],
         "assumptions": ["Real.log 0 = 0 over ℝ: statements are restricted to points with positive density; off-support behaviour is covered by the ∀α guard lemmas"],
     },
